@@ -29,7 +29,8 @@ PROPS['C17'] = dict(
                  quick=dict(count=30000), thorough=dict(count=1000000))],
     rule='corr.slot.table: random interleavings (2-30 ops) of Slot::fresh / Slot::numeric / Slot::named / Display / '
          'print-then-parse in a fresh thread (empty slot table), names drawn from a pool of plain identifiers, f<n>, f0<n>, '
-         'f+<n>, <n>, 0<n>, +<n>, numbers around 2^30 and 2^32, empty, unicode digits; final equality matrix of all issued '
+         'f+<n>, <n>, 0<n>, +<n>, numbers around 2^30 and 2^32, empty, unicode digits, names starting with $; a third of the identifier-like names '
+         'reach the table through the parser (RecExpr::parse("(var $<name>)")), and printed slots are parsed back both by Slot::named and through the parser; final equality matrix of all issued '
          'slots. non-trivial = the case contains a fresh call and a numeric-looking or f-prefixed name; distinct = by hash of the case line',
     trusted_base=['modelled, not verified: str::parse::<u32>, u32::to_string (model: Nat.toDigits/ofDigitChars with the u32 bound), HashMap<String,u32> lookup (model: List.idxOf)'],
     assumptions=COMMON_ASSUME + ['debug build: u32 overflow panics (Slot::numeric(u) for u >= 2^30, fresh counter exhaustion) are modelled as panics',
@@ -240,7 +241,7 @@ PROPS['C03'] = dict(
             dict(name='rw', variant='checks', shrink=False, quick=dict(count=400, timeout=900), thorough=dict(count=8000, timeout=3000))],
     rule='corr.eval: 1-2 start terms over the arithmetic fragment of the main language (add, mul, numbers, symbols, var, sum $x, '
          'let $x, h, k; depth 2-3; slots occur only through (var $x), which is what makes b[(var $x) := t] meaningful), a random '
-         'subset of 2-8 rules of the 30-rule pool proved valid in Lean, 1-4 apply_rewrites iterations within a node budget, with '
+         'subset of 2-8 rules of the 31-rule pool proved valid in Lean, 1-4 apply_rewrites iterations within a node budget, with '
          'SynExprSubst (2/3) or ExtractionSubst (1/3), side conditions either as closures or through the crate\'s slot_free_in/and '
          'helpers (1/2 each). Afterwards, per live class: every e-node with its children replaced by representative terms (built by the '
          'harness bottom-up from enodes(), binders renamed apart), plus the originally inserted term, is evaluated by the Lean model '
